@@ -4,6 +4,7 @@
      parameters of those names
   D2 x2/x4 prefixes map to their flags, the flag word and the operand order reach
      orc_program_append_str_n unchanged
+  D3 the constant-reuse lookup of orc_program_add_constant_str compares values at their full 64-bit width
 Literal parsing, independence of spacing/comments/line endings: NOT decided.
 """
 from facts import AnalysisBroken, access_path, init_rows, strip_casts, unparse
@@ -181,3 +182,32 @@ def run(ctx):
     rep.check(ok, "D2-PREFIX", where(ho), "operand-order", "operands are copied in increasing token order (args[j] = tokens[i]; i++, j++)",
               "operand tokens are no longer copied to args[] in increasing order")
     rep.floor("D1-DIRECTIVES", 30)
+
+    # ---- D3: constants are merged only when their full 64-bit values agree ----------------------------
+    # orc_program_add_constant_str reuses an existing constant slot for a literal of equal size and value.  The comparison
+    # that decides "equal value" has to be made at the width of OrcVariable.value (64 bits) on both sides; if one side has
+    # gone through a 32-bit variable or parameter, a later literal is silently replaced by an earlier, different one.
+    from widen import _ity
+    ptu = db.tu("orcprogram")
+    acs = ptu.fn.get("orc_program_add_constant_str")
+    if acs is None:
+        raise AnalysisBroken("orc_program_add_constant_str not found")
+    scope = [acs] + [ptu.fn[c.name] for c in acs.calls() if c.name in ptu.fn and ptu.fn[c.name].static]
+    n3 = 0
+    for g in scope:
+        for n in g.walk():
+            if n.k != "BinaryOperator" or n.op not in ("==", "!="):
+                continue
+            sides = [strip_casts(x) for x in n.c[:2]]
+            isval = [x is not None and x.k == "MemberExpr" and x.name == "i" and strip_casts(x.c[0]) is not None and strip_casts(x.c[0]).k == "MemberExpr" and
+                     strip_casts(x.c[0]).name == "value" for x in sides]
+            if not any(isval):
+                continue
+            n3 += 1
+            bad = [x for x, v in zip(sides, isval) if not v and x is not None and x.v is None and (_ity(x) is None or _ity(x)[0] < 64)]
+            rep.check(not bad, "D3-CONST-IDENTITY", where(g), "value-compare@%s" % g.name,
+                      "constant values are compared at 64 bits on both sides",
+                      "%s compares an OrcVariable value with `%s` of type %s: the 64-bit literal has been narrowed, so two different "
+                      "constants can be taken for the same one and merged" % (g.name, unparse(bad[0])[:40] if bad else "", bad[0].get("ty") if bad else ""), line=n.line)
+    if n3 < 1:
+        raise AnalysisBroken("no value comparison found in the constant-reuse code of orc_program_add_constant_str")
